@@ -141,11 +141,11 @@ Proof.
 Qed.
 
 (* updating one slot re-establishes K *)
-Lemma K_update h hold rid s' (hb : option nat) ch st tn :
+Lemma K_update h hold rid s' (hb : option nat) ch st tn av :
   K h hold -> inv NR s' ->
   (forall r, r <> rid -> reqs s' r = reqs (h_model h) r) ->
   held (reqs s' rid) = hb ->
-  K (mkH s' (upd (h_hold h) rid hb) ch st tn)
+  K (mkH s' (upd (h_hold h) rid hb) ch st tn av)
     (upd hold rid (match hb with Some b => Some (Z.of_nat b) | None => None end)).
 Proof.
   intros [Hi Hk] Hi' Hoth Hh. split; [exact Hi'|]. intro r. cbn [h_hold h_model]. unfold upd.
@@ -162,12 +162,12 @@ Proof.
   induction ops as [|o ops IH]; intros k h hold l Hr HK H; cbn [exec] in H.
   { inversion H; reflexivity. }
   inversion Hr as [|? ? Hrid Hr']; subst.
-  destruct o as [rid fwd steps rr rf|rid|rid kind st]; cbn [op_rid] in Hrid.
+  destruct o as [rid fwd steps rr rf|rid|rid kind st|b v]; cbn [op_rid] in Hrid.
   - (* HStart *)
     unfold is_held in H. destruct (h_hold h rid) as [b0|] eqn:Hh; [discriminate|].
     set (ch := choose k (HStart rid fwd steps rr rf)) in *.
-    destruct (simulate 40 DEAD rm 0 fwd steps ch) as [m|] eqn:Sim; [|discriminate].
-    destruct (negb (Nat.eqb (m_used m) (length ch))); [discriminate|].
+    destruct (simulate 40 DEAD rm (if any_avail h then 0 else rm + 1) fwd steps ch) as [m|] eqn:Sim; [|discriminate].
+    destruct (negb (Nat.eqb (m_used m) (length ch)) || negb (choices_avail h ch)); [discriminate|].
     destruct (run_ops (reset (h_model h) rid) (tag rid (m_ops m))) as [s'|] eqn:Run; [|discriminate].
     match type of H with match exec rm ops choose (S k) ?hh with _ => _ end = _ => set (h' := hh) in * end.
     destruct (exec rm ops choose (S k) h') as [l'|] eqn:Ex; [|discriminate]. inversion H; subst l; clear H.
@@ -178,9 +178,9 @@ Proof.
     { intros r Hne. rewrite (run_ops_other rid _ _ _ r Run Hne). unfold reset. cbn [reqs]. unfold upd.
       apply Nat.eqb_neq in Hne. rewrite Hne. reflexivity. }
     assert (P0 : ph (reqs (reset (h_model h) rid) rid) = PLoop) by (unfold reset; cbn [reqs]; rewrite upd_same; reflexivity).
-    destruct (simulate_valid 40 DEAD rm 0 fwd steps ch m _ rid Sim P0) as [s'' [Run' End]].
+    destruct (simulate_valid 40 DEAD rm _ fwd steps ch m _ rid Sim P0) as [s'' [Run' End]].
     unfold tag in Run. rewrite Run in Run'. inversion Run'; subst s''; clear Run'.
-    pose proof (simulate_status 40 DEAD rm 0 fwd steps ch m Sim) as St.
+    pose proof (simulate_status 40 DEAD rm _ fwd steps ch m Sim) as St.
     unfold sim_end in End.
     cbn [prop_ops obs_val counts_val op_rid].
     destruct (m_held m) eqn:MH.
@@ -228,6 +228,7 @@ Proof.
   - (* HTunnel *)
     unfold is_held in H. destruct (h_hold h rid) as [b0|] eqn:Hh; [discriminate|].
     set (ch := choose k (HTunnel rid kind st)) in *.
+    destruct (negb (choices_avail h ch)); [discriminate|].
     destruct (tunnel_ops kind ch st) as [[tops heldf]|] eqn:TO; [|discriminate].
     destruct (run_ops (reset (h_model h) rid) (tag rid tops)) as [s'|] eqn:Run; [|discriminate].
     match type of H with match exec rm ops choose (S k) ?hh with _ => _ end = _ => set (h' := hh) in * end.
@@ -268,6 +269,13 @@ Proof.
         cbn [vbool VF Z.eqb].
         rewrite (counts_clause s'). rewrite (head_ok h' _ s' HK' eq_refl). cbn [andb negb Z.eqb].
         eapply IH; eassumption.
+  - (* HAdmin *)
+    match type of H with match exec rm ops choose (S k) ?hh with _ => _ end = _ => set (h' := hh) in * end.
+    destruct (exec rm ops choose (S k) h') as [l'|] eqn:Ex; [|discriminate]. inversion H; subst l; clear H.
+    assert (HK' : K h' hold) by (destruct HK as [Hi Hk]; split; [exact Hi|exact Hk]).
+    cbn [prop_ops obs_val counts_val op_rid vbool VF Z.eqb].
+    rewrite (counts_clause (h_model h)). rewrite (head_ok h' _ (h_model h) HK' eq_refl). cbn [andb].
+    eapply IH; eassumption.
 Qed.
 
 (* ---- through the wire functions ---- *)
